@@ -189,6 +189,8 @@ impl Mat2 {
     /// Panics if `slice` is less than 4 elements long.
     #[inline]
     pub fn write_cols_to_slice(self, slice: &mut [f32]) {
+        // check the length once, before anything is written
+        let slice = &mut slice[..4];
         slice[0] = self.x_axis.x;
         slice[1] = self.x_axis.y;
         slice[2] = self.y_axis.x;
